@@ -236,6 +236,7 @@ pub enum Op {
     EgDkFromShares,    // [eshare..] -> [edk]
     EgDkDecrypt,       // [edk, ect] -> [point]
     EgVerifyRaw,       // [pk, generator(empty = default), c1, c2, mp, bp, ch] -> []   trait-level BlsElGamal::verify_proof
+    VerifyUnchecked,   // [kind(1): 0 Signature / 1 MultiSignature vs MultiPublicKey / 2 ProofOfPossession, sig (tag+point, or bare point for 2), pk point, msg] -> []  values built through the PUBLIC enum / tuple constructors from on-curve points WITHOUT the subgroup check
     MsgGenerator,      // [] -> [point]
     Dsts,              // [] -> [basic, aug, pop_sig, pop_pop, elgamal_enc]
     Recode,            // [ty, codec_in, codec_out, bytes] -> [bytes]
